@@ -1133,6 +1133,8 @@ def verify_des_shape(lang, t, shape, invalid, text, module_rel, cls_path, src_ro
         if _re.fullmatch(r"_(len|tag)\d+_|_dh_", name) and isinstance(v, VInt) and _int_lit(v.t) is None:
             for L in sorted(set(expect)):
                 if it.ctx.implied(epy.Eq(v.t, str(L))):
+                    if it.ctx.implied("false"):
+                        raise epy.PathEnd()  # a case whose conditions on the input contradict each other: nothing to prove
                     return VInt(str(L))
         return v
     e.assign_hook = concretize
@@ -1193,8 +1195,8 @@ def generate_des(args):
 # ---------------------------------------------------------------------------------------------------------------------
 # case-level jobs (one shape / one invalid-input case per worker task): the shapes of one type are independent proofs
 # ---------------------------------------------------------------------------------------------------------------------
-def cases_of(t, direction: str) -> typing.List[typing.Tuple[dict, typing.Optional[str]]]:
-    shapes = shapes_of(t, des=direction == "des")
+def cases_of(t, direction: str, cap: int = 300) -> typing.List[typing.Tuple[dict, typing.Optional[str]]]:
+    shapes = shapes_of(t, cap=cap, des=direction == "des")
     cases: typing.List[typing.Tuple[dict, typing.Optional[str]]] = [(sh, None) for sh in shapes]
     if direction == "des":
         seen = set()
